@@ -182,6 +182,9 @@ pub struct SrvOptions {
     pub fail_write_at: Option<(usize, IoKind)>,
     /// after the script, if the session is still parked, request shutdown and see that it ends
     pub probe_shutdown: bool,
+    /// back-pressure on the reply direction: after this many bytes nothing is accepted for this
+    /// many ms (a write crossing the mark is accepted in part)
+    pub write_stall: Option<(usize, u64)>,
 }
 
 impl Default for SrvOptions {
@@ -190,6 +193,7 @@ impl Default for SrvOptions {
             select_seed: 0,
             fail_write_at: None,
             probe_shutdown: true,
+            write_stall: None,
         }
     }
 }
@@ -219,6 +223,9 @@ pub fn run_server(cfg: &SrvConfig, steps: &[Step], opt: &SrvOptions) -> SrvRun {
     let out = rt.block_on(async {
         let (handle, mut session) = server_session(framing, map, auth, decode);
         let (io, ioh) = sim::script_io(Vec::new(), fail_write_at, None);
+        if let Some((after, ms)) = opt.write_stall {
+            ioh.set_write_stall(after, Duration::from_millis(ms));
+        }
         let (session_fut, polls) = PollCounted::new(async move { session.run(Box::new(io)).await });
         tokio::pin!(session_fut);
         let mut handle = Some(handle);
